@@ -304,6 +304,10 @@ def conclude(prop, tier, seed, specs, results, metas, crashes, nat, group_wall, 
     os.makedirs(EVID, exist_ok=True)
     if not partial and not os.environ.get("VT_NO_EVIDENCE"):
         json.dump(evidence, open(os.path.join(EVID, prop + ".json"), "w"), indent=1, default=str)
+    if os.environ.get("VT_TIMES"):
+        os.makedirs(OUT, exist_ok=True)
+        json.dump(sorted(([r["name"], r["kind"], r["backend"], r["status"], round(r["time_s"], 2)] for r in results), key=lambda x: -x[4])[:60],
+                  open(os.path.join(OUT, "times_%s_%s.json" % (prop, tier)), "w"), indent=0)
     # report -----------------------------------------------------------
     print("%s tier=%s: %d obligations (P/G), %d discharged, %d bounded held, %d undecided(unlocked), %d known, %d violations, %d errors, %.1fs"
           % (prop, tier, len(pg), len(proved), len([r for r in bb if r["status"] == "held"]), len(undecided), len(knowns), len(confirmed),
